@@ -77,7 +77,7 @@ def r1(R, m):
 
 def r2(R, m):
     R.rule("C14.R2", "sparse_frame.reorder applies the same 'order' to row, col and every array in pixels, in place")
-    fn = m.func("sparse_frame.reorder")
+    fn = pyfacts.unroll_literal_loops(pyfacts.clone(m.func("sparse_frame.reorder")))     # 'for ary in (self.row, self.col): ary[:] = ary[order]' reads as its two stores
     order = fn.args.args[1].arg
     st = [s for s in ast.walk(fn) if isinstance(s, ast.Assign) and isinstance(s.targets[0], ast.Subscript)]
     tg = {}
